@@ -8,7 +8,7 @@ wt=/tmp/wt-confirm
 if [ ! -d $wt ]; then git -C /repo worktree add -q --detach $wt 9f1ceaf || exit 2; fi
 cd $wt && git checkout -q -- . && git clean -fdq -e target
 first=$(head -1 $md/demo.rs)
-dest=$(echo "$first" | sed -E 's/^\/\/ *[Cc]opy to ([^ ;]+).*/\1/')
+dest=$(echo "$first" | sed -E 's/.*[Cc]opy to ([^ ;]+).*/\1/')
 cmd=$(echo "$first" | sed -E 's/.*run: *(cargo test.*)$/\1/')
 {
 echo "mutant: $md"; echo "demo -> $dest ; cmd: $cmd"
